@@ -18,6 +18,7 @@ ORD = {6: "SIXTH", 7: "SEVENTH", 8: "EIGHTH", 9: "NINTH"}
 FOCUS = {
     6: """  * This round, look especially at: (a) the SHARED modules that the property's mechanism depends on but that are not its main file - src/pyrtma/message.py, header.py, message_data.py, message_base.py, validators.py, context.py, exceptions.py, constants / core_defs.py, client_logging.py, utils/ - a change there that is harmless for everything else; (b) behaviour that depends on HOW MANY times or IN WHAT ORDER something happened before (the second / third occurrence, an operation right after a failed or refused one, an operation on an object that was used for something else before); (c) values that are legal but sit at the edge of a representation (largest / smallest id, 16/32-bit wrap, empty / maximal payload, zero / negative / huge timeout, time stamps of 0 or far in the future); (d) the code's handling of PARTIAL progress (short reads and writes, a peer that goes away between two steps of one operation, an exception between two statements that belong together); (e) two objects of the same class living in one process (two clients, two managers one after the other, two data collections, two threads) that end up sharing something they must not share.""",
     7: """  * This round, look especially at: (a) what happens AFTER an error path was taken once (state left behind by a refused, failed, timed-out or interrupted operation, that makes a later perfectly ordinary operation go wrong); (b) pairs of operations that are each correct but whose combination in a particular order is not; (c) anything keyed, indexed, cached, sorted or compared by a value that can legally collide, repeat, wrap or be negative; (d) work that is skipped as an 'optimisation' when it looks unnecessary (already subscribed, nothing changed, same value as last time, empty list, zero bytes) in a case where it is in fact necessary; (e) resource ownership: who closes, removes, clears or resets what, and when.""",
+    8: """  * This round, look especially at: (a) behaviour that depends on DURATIONS and DEADLINES (the periods of the manager's periodic messages, select / read / acknowledgement timeouts, sleeps, flush and subdivision periods, time stamps compared with < versus <=, clocks that jump or stand still); (b) behaviour that depends on how bytes are CHUNKED (short reads and short writes at every layer, a frame split at any offset, several frames in one read, zero-length reads and writes); (c) rarely failing calls that suddenly do fail or return something unusual (accept, getpeername, setsockopt, close, logging handlers, open / write / flush / rename of files: disk full, permission denied, EINTR), and the clean-up that must still happen afterwards; (d) Python object lifetime and identity (objects reused after reset, ids reused after garbage collection, default arguments evaluated once, class attributes that should be instance attributes, iteration order of sets and dicts, mutation during iteration); (e) formatting and parsing of numbers and text at their extremes in the text formats the project writes and reads back (JSON, CSV headers, names with separators, NaN / inf, 64-bit integers, non-ASCII).""",
 }
 
 
